@@ -48,6 +48,9 @@ type c16Job struct {
 	// Companions: the request carries two more records (one before, one after the record under test) with attributes of
 	// their own (cattr, cnum); nothing of them may show up in the record under test
 	Companions bool `json:"companions,omitempty"`
+	// CompRes (OTLP logs and traces, with Companions): the companions travel in resources of their own, before and after the
+	// record's resource, and those resources carry attributes (service.name, cres) that the record's own resource lacks
+	CompRes bool `json:"companionResources,omitempty"`
 }
 
 var c16AttrAlphabet = []c16Attr{
@@ -297,7 +300,16 @@ func c16Send(w *kernel.Worker, j *c16Job, marker string) (*c16Sent, error) {
 					Attributes: []*commonpb.KeyValue{{Key: "cattr", Value: anyValue(tag + "-v")}, {Key: "cnum", Value: anyValue(int64(77))}}}
 			}
 			sl := req.ResourceLogs[0].ScopeLogs[0]
-			sl.LogRecords = []*logpb.LogRecord{cr("zb"), sl.LogRecords[0], cr("za")}
+			if j.CompRes {
+				crl := func(tag string) *logpb.ResourceLogs {
+					return &logpb.ResourceLogs{Resource: &respb.Resource{Attributes: []*commonpb.KeyValue{{Key: "siglensIndexName", Value: anyValue("c16otlplogs")},
+						{Key: "service.name", Value: anyValue("csvc-" + tag)}, {Key: "cres", Value: anyValue("cres-" + tag)}}},
+						ScopeLogs: []*logpb.ScopeLogs{{Scope: &commonpb.InstrumentationScope{Name: "csc", Attributes: []*commonpb.KeyValue{{Key: "cscope", Value: anyValue("cscope-" + tag)}}}, LogRecords: []*logpb.LogRecord{cr(tag)}}}}
+				}
+				req.ResourceLogs = []*logpb.ResourceLogs{crl("zb"), req.ResourceLogs[0], crl("za")}
+			} else {
+				sl.LogRecords = []*logpb.LogRecord{cr("zb"), sl.LogRecords[0], cr("za")}
+			}
 		}
 		pb, err := proto.Marshal(req)
 		if err != nil {
@@ -325,7 +337,18 @@ func c16Send(w *kernel.Worker, j *c16Job, marker string) (*c16Sent, error) {
 					Attributes: []*commonpb.KeyValue{{Key: "cattr", Value: anyValue(tag + "-v")}, {Key: "cnum", Value: anyValue(int64(77))}}, Status: &tracepb.Status{Code: tracepb.Status_STATUS_CODE_OK}}
 			}
 			ss := req.ResourceSpans[0].ScopeSpans[0]
-			ss.Spans = []*tracepb.Span{cspan("zb", 0x01), ss.Spans[0], cspan("za", 0x02)}
+			if j.CompRes {
+				// the record's own resource names no service: whatever is stored for it must not be a neighbour's
+				req.ResourceSpans[0].Resource = &respb.Resource{Attributes: []*commonpb.KeyValue{{Key: "ownres", Value: anyValue("ownres-v")}}}
+				delete(s.leaves, "service")
+				crs := func(tag string, id byte) *tracepb.ResourceSpans {
+					return &tracepb.ResourceSpans{Resource: &respb.Resource{Attributes: []*commonpb.KeyValue{{Key: "service.name", Value: anyValue("csvc-" + tag)}, {Key: "cres", Value: anyValue("cres-" + tag)}}},
+						ScopeSpans: []*tracepb.ScopeSpans{{Spans: []*tracepb.Span{cspan(tag, id)}}}}
+				}
+				req.ResourceSpans = []*tracepb.ResourceSpans{crs("zb", 0x01), req.ResourceSpans[0], crs("za", 0x02)}
+			} else {
+				ss.Spans = []*tracepb.Span{cspan("zb", 0x01), ss.Spans[0], cspan("za", 0x02)}
+			}
 		}
 		pb, err := proto.Marshal(req)
 		if err != nil {
@@ -546,6 +569,9 @@ func c16Run(w *kernel.Worker, j *c16Job, rep *kernel.Report) (*Fail, error) {
 		if c == "cattr" || c == "cnum" || c == "cmarker" || strings.HasSuffix(c, ".cattr") || strings.HasSuffix(c, ".cnum") || strings.HasSuffix(c, "_cattr") || strings.HasSuffix(c, ":cattr") {
 			fs.Add("C16/foreign-field/"+j.Protocol, ctx+fmt.Sprintf(": the stored event has %s=%s, a field of another record of the same request: %s", c, jstr(v), jstr(rec)))
 		}
+		if sv, ok := v.(string); ok && (strings.Contains(sv, "csvc-z") || strings.Contains(sv, "cres-z") || strings.Contains(sv, "cscope-z")) {
+			fs.Add("C16/foreign-field/"+j.Protocol, ctx+fmt.Sprintf(": the stored event has %s=%s, a resource or scope attribute of another resource of the same request: %s", c, jstr(v), jstr(rec)))
+		}
 	}
 	// time
 	ts, _ := ObsInt(rec["timestamp"])
@@ -582,7 +608,7 @@ func C16() int {
 	rep := kernel.NewReport("C16", "exploration")
 	rep.Rule = "logical events = every subset of ≤ n attributes from {string, int, float, bool, nested map, list, negative int} × every way the protocol can carry the instant 2023-11-14T22:15:23.456Z " +
 		"(absent, ms, s, ns, RFC3339, RFC3339Nano, float seconds) × 10 protocol endpoints of the booted server (ES bulk, ES doc, Splunk HEC, Loki protobuf+snappy and JSON, OTLP logs, OTLP traces, OpenTSDB put, " +
-		"Prometheus remote write, OTLP metrics), each request alone and with two companion records of other content before and after it in the same request. The stored event is read back: each logical leaf must be present under a column whose name is or ends with its key path, with an equal value; the stored time must " +
+		"Prometheus remote write, OTLP metrics), each request alone and with two companion records of other content before and after it in the same request (OTLP logs and traces also with the companions in resources of their own whose resource and scope attributes the record's resource lacks). The stored event is read back: each logical leaf must be present under a column whose name is or ends with its key path, with an equal value; the stored time must " +
 		"equal the carried time (second precision where the carried form has it), and arrival time only when none was carried; nothing of a companion record appears in it. non-trivial = event carrying its own time and ≥1 non-string attribute"
 	rep.Assume = []string{"Loki and the metric protocols carry text labels only: scalar attributes are compared as text, structured ones are not sent", "per-protocol renaming is allowed: a field may sit under any column whose name ends with its key path"}
 	d := &Driver[c16Job]{Rep: rep, Pool: serverPool(),
@@ -608,6 +634,9 @@ func C16() int {
 						emit(c16Job{Protocol: p, Attrs: as, Time: tm})
 						if p != "es-doc" {
 							emit(c16Job{Protocol: p, Attrs: as, Time: tm, Companions: true})
+							if p == "otlp-logs" || p == "otlp-traces" {
+								emit(c16Job{Protocol: p, Attrs: as, Time: tm, Companions: true, CompRes: true})
+							}
 						}
 					}
 				}
